@@ -219,8 +219,10 @@ fn err_matches(class: &str, f: &Fault, e: &ErrRec) -> bool {
     match (class, e) {
         ("unknown-id", ErrRec::InvalidTagId { pos, id }) => *pos == f.off && *id == f.id,
         ("hierarchy", ErrRec::Hierarchy { found, .. }) => *found == f.id,
-        ("oversized-child", ErrRec::OversizedChild { pos, id, size }) => *pos == f.off && *id == f.id && Some(*size) == f.size,
-        ("size-limit", ErrRec::InvalidTagSize { pos, id, size }) => *pos == f.off && *id == f.id && Some(*size) == f.size,
+        // kind and offset are what the statement names; the id at that offset identifies the offending element; the size
+        // field of these two errors is not compared (nothing says which size it has to carry)
+        ("oversized-child", ErrRec::OversizedChild { pos, id, .. }) => *pos == f.off && *id == f.id,
+        ("size-limit", ErrRec::InvalidTagSize { pos, id, .. }) => *pos == f.off && *id == f.id,
         _ => false,
     }
 }
